@@ -85,6 +85,7 @@ def register(reg):
                                     'and self.flush_count == old(self.flush_count))'),
             ('excess-removed', 'implies(old(self.flush_count) > utxo_flush_count, self.flush_count == utxo_flush_count and '
                                'forall(lambda k=Bytes: implies(k in self.db.g_map and k != STATEKEY, fid(k) <= utxo_flush_count)))'),
+            ('no-new-rows', 'forall(lambda k=Bytes: implies(k in self.db.g_map, k in old(self.db.g_map) or k == STATEKEY))'),
             ('others-kept', 'forall(lambda k=Bytes: implies(k in old(self.db.g_map) and fid(k) <= utxo_flush_count and k != STATEKEY, '
                             'k in self.db.g_map and lookup(self.db.g_map, k) == lookup(old(self.db.g_map), k)))'),
         ],
@@ -105,4 +106,4 @@ def register(reg):
                                     ('only', 'forall(lambda k=Bytes: implies(k in batch.g_ops, k in kset and is_none(lookup(batch.g_ops, k))))')],
                         modifies=['batch.g_ops']),
         },
-        portfolio=True, props=['C14', 'C04'])
+        portfolio=True, props=['C14', 'C04', 'C05'])
